@@ -3,9 +3,27 @@
 EXTENDS ClockSync, Json, IOUtils, SequencesExt
 
 Patterns == {<<a, b>> \in Subsets(8, 2) \X Subsets(8, 2) : TRUE}
+
+(* runs of consecutive deletions (quantifier: 0..5 events missing on each side at ANY position, so five in a row at the   *)
+(* start, inside or at the end of a series as well).  Abstract train of 15 events: 1..5 = the first five events of the    *)
+(* long train, 6..10 = five consecutive events in its interior, 11..15 = its last five; a run stays inside one block.     *)
+RunN == 15
+Block(e) == (e - 1) \div 5
+RunSets == {{}} \cup {i..j : <<i, j>> \in {q \in (1..RunN) \X (1..RunN) : q[1] <= q[2] /\ Block(q[1]) = Block(q[2])}}
+RunPatterns == RunSets \X RunSets
+\* the bookkeeping oracle is consistent on every run pattern as well (same formulas as invariant Bookkeeping)
+RunBookkeeping ==
+    \A p \in RunPatterns :
+        /\ IdxIsOrderIsomorphism(RunN, p[1]) /\ IdxIsOrderIsomorphism(RunN, p[2])
+        /\ TruthIsMonotoneMatching(RunN, p[1], p[2])
+        /\ \A q \in TruePairs(RunN, p[1], p[2]) : ~SoundP({<<q[1], q[2] + 1>>}, TruePairs(RunN, p[1], p[2]))
+
 Export ==
     /\ TLCGet("distinct") >= 0
+    /\ RunBookkeeping
     /\ JsonSerialize(IOEnv.OUT_FILE,
          [patterns |-> SetToSeq({[missA |-> SetToSortSeq(p[1], <), missB |-> SetToSortSeq(p[2], <),
-                                  ntrue |-> Cardinality(TruePairs(8, p[1], p[2]))] : p \in Patterns})])
+                                  ntrue |-> Cardinality(TruePairs(8, p[1], p[2]))] : p \in Patterns}),
+          runs |-> SetToSeq({[missA |-> SetToSortSeq(p[1], <), missB |-> SetToSortSeq(p[2], <),
+                              ntrue |-> Cardinality(TruePairs(RunN, p[1], p[2]))] : p \in RunPatterns})])
 =============================================================================
